@@ -18,6 +18,8 @@ from .core import cps
 
 DFLT = "?"  # ContainersTrace!Dflt
 MD_FAMILY = ("MultiDict", "ImmutableMultiDict", "FileMultiDict", "CombinedMultiDict")
+# immutable dict variants without a container model of their own: only the ==/hash laws are judged
+OPAQUE = ("ImmutableDict", "ImmutableTypeConversionDict", "ImmutableOrderedMultiDict")
 DOCUMENTED_EXC = (KeyError, IndexError, TypeError, ValueError, AttributeError, NotImplementedError)
 
 
@@ -225,7 +227,7 @@ def _rd(o, n, r, k="", i=0, j=0):
 def reads(idx: int, kind: str, o, keys) -> list:
     """ALL public reads of one object (idx = its number in the trace)."""
     out = []
-    if kind == "Environ":
+    if kind == "Environ" or kind in OPAQUE:
         return out
     if kind in MD_FAMILY:
         comb = kind == "CombinedMultiDict"
@@ -313,7 +315,20 @@ def reads(idx: int, kind: str, o, keys) -> list:
 
 
 def _family(kind):
-    return "md" if kind in MD_FAMILY else kind
+    return "md" if kind in MD_FAMILY or kind in OPAQUE else kind
+
+
+def law_probe(x, y):
+    """[x == y, y == x, hash relation, y in {x}, {x: 1}.get(y) == 1]; 2 = not applicable (unhashable)"""
+    e1 = 1 if (x == y) is True else 0
+    e2 = 1 if (y == x) is True else 0
+    try:
+        h = 1 if hash(x) == hash(y) else 0
+        ins = 1 if y in {x} else 0
+        dk = 1 if {x: 1}.get(y) == 1 else 0
+    except TypeError:
+        h = ins = dk = 2
+    return [e1, e2, h, ins, dk]
 
 
 def eq_probe(x, y):
@@ -344,13 +359,21 @@ class Recorder:
             s += reads(n, kind, o, self.keys)
         for a in range(len(self.objs)):
             for b in range(a + 1, len(self.objs)):
+                # FileStorage values compare by identity (the trace names them by filename): no == probes in a
+                # trace that has a FileMultiDict (its values travel into copies and combined views)
                 if (_family(self.kinds[a]) == _family(self.kinds[b]) and self.kinds[a] not in ("Environ", "EnvironHeaders")
-                        and "FileMultiDict" not in (self.kinds[a], self.kinds[b])):   # FileStorage values compare by identity
+                        and "FileMultiDict" not in self.kinds):
+                    if self.kinds[a] not in OPAQUE and self.kinds[b] not in OPAQUE:
+                        try:
+                            r = {"tag": "ints", "v": eq_probe(self.objs[a], self.objs[b])}
+                        except Exception as e:
+                            r = enc_exc(e)
+                        s.append({"o": a + 1, "n": "eq", "k": [], "i": b + 1, "j": 0, "r": r})
                     try:
-                        r = {"tag": "ints", "v": eq_probe(self.objs[a], self.objs[b])}
+                        r = {"tag": "ints", "v": law_probe(self.objs[a], self.objs[b])}
                     except Exception as e:
                         r = enc_exc(e)
-                    s.append({"o": a + 1, "n": "eq", "k": [], "i": b + 1, "j": 0, "r": r})
+                    s.append({"o": a + 1, "n": "eqlaw", "k": [], "i": b + 1, "j": 0, "r": r})
         return s
 
     def _emit(self, line, x=None):
@@ -373,6 +396,14 @@ class Recorder:
                 o = dict(build_src(a))
             elif kind == "HeaderSet":
                 o = ds.HeaderSet([dec(v) for v in a["vs"]])
+            elif kind == "ImmutableOrderedMultiDict":
+                import warnings
+
+                from werkzeug.datastructures import structures as _st
+
+                with warnings.catch_warnings():
+                    warnings.simplefilter("ignore")
+                    o = _st._ImmutableOrderedMultiDict(build_src(a))
             else:
                 arg = build_src(a)
                 if kind == "FileMultiDict":
@@ -624,8 +655,46 @@ def rand_args(rng, kind, name, keys, vals, nlen, fresh=None):
     return A(k=k, v=v, idx=rng.randint(-(nlen + 1), nlen))
 
 
+def gen_twins(rng):
+    """Immutable containers with EQUAL CONTENT BUT DIFFERENT KEY INSERTION ORDER, built from different
+    constructor inputs / histories, plus pickled and deep-copied twins and one unequal sibling: every
+    pair is probed for x == y, y == x, hash, set membership and dict lookup after every step."""
+    kind = rng.choice(["ImmutableMultiDict"] * 3 + ["ImmutableDict", "ImmutableTypeConversionDict", "ImmutableOrderedMultiDict"])
+    multi = kind in ("ImmutableMultiDict", "ImmutableOrderedMultiDict")
+    keys = rng.sample(MD_KEYS, rng.randint(2, 3))
+    vals = rng.sample(VALS, 4)
+    ent = [(k, [rng.choice(vals) for _ in range(rng.randint(1, 2) if multi else 1)]) for k in keys]
+    rev = ent[::-1] if rng.random() < 0.7 else rng.sample(ent, len(ent))
+    steps = [{"op": "new", "kind": kind, "a": A(src=ent, form="pairs"), "over": []},
+             {"op": "new", "kind": kind, "a": A(src=rev, form=rng.choice(["pairs", "dictlist"] if multi else ["pairs", "dict"])), "over": []}]
+    n = 2
+    if kind == "ImmutableMultiDict":
+        # a MultiDict whose history inserted the keys in yet another order, then frozen
+        steps.append({"op": "new", "kind": "MultiDict", "a": A(), "over": []})
+        n += 1
+        flat = [(k, v) for k, vs in rev for v in vs]
+        if rng.random() < 0.5:   # interleave: all first values (reverse key order), then the rest
+            flat = [(k, vs[0]) for k, vs in rev] + [(k, v) for k, vs in ent for v in vs[1:]]
+        for k, v in flat:
+            steps.append({"op": "call", "o": n, "name": "add", "a": A(k=k, v=v)})
+        steps.append({"op": "derive", "o": n, "how": "ctor_imm"})
+        n += 1
+        steps.append({"op": "new", "kind": kind, "a": A(src=rev, form=rng.choice(["md", "imd", "headers"])), "over": []})
+        n += 1
+    steps.append({"op": "derive", "o": 1, "how": "pickle"})
+    steps.append({"op": "derive", "o": 2, "how": "deepcopy"})
+    if rng.random() < 0.5:
+        steps.append({"op": "derive", "o": 2, "how": "copy_copy"})      # "a no-op for immutable types"
+    other = [(k, list(vs)) for k, vs in ent]
+    other[-1][1][0] = next(v for v in vals + ["q"] if v != other[-1][1][0])
+    steps.append({"op": "new", "kind": kind, "a": A(src=other[::-1], form="pairs"), "over": []})
+    return keys + ["zz"], steps
+
+
 def gen_script(rng, family: str, nsteps: int):
     """A seeded random scenario for one container family: (probe keys, steps)."""
+    if family == "twins":
+        return gen_twins(rng)
     steps, kinds = [], []
 
     def new(kind, a=None, over=()):
